@@ -1160,7 +1160,8 @@ def run(ctx, only=None):
     ctx.tie["normalizer/methods.py: _normalize/_denormalize/_derivative of LogNormal, BoxCox, BoxCoxShift, YeoJohnson, Modulus, Manly (18 functions)"] = (
         "translated (py2coq, regenerated on this run) and proved equal to the hand model: 12 for every number type, 6 (log1p/expm1) at R "
         "(theorems C18_tie_*); additionally hand model executed against the implementation")
-    ctx.tie["normalizer/methods.py: normalize_range / denormalize_range; base class Normalizer formulas"] = "hand model + correspondence"
+    ctx.tie["normalizer/methods.py: the six *_range properties that are functions"] = "translated (py2coq) and proved equal to the hand model for every number type (C18_tie_*_range); additionally compared by execution"
+    ctx.tie["normalizer/methods.py: class-attribute ranges; base class Normalizer formulas"] = "hand model + correspondence"
     ctx.tie["normalizer/base.py: _check_input, normalize, denormalize, derivative, (kernel_)loglikelihood"] = "hand model + correspondence"
     ctx.tie["normalizer/tools.py: apply_mean_norm_trend / remove_trend_norm_mean; field/base.py post_field; krige/base.py _krige_cond"] = "hand model + correspondence"
     ctx.tie["normalizer/base.py: fit (bookkeeping: free/skipped names, write-back, returned dict)"] = "hand model fit_book + correspondence (recorded and arbitrary optimisers)"
